@@ -245,3 +245,132 @@ def expected_stream(res):
     out += [0] if res["eval"] is None else [1] + t_evalue(res["eval"])
     out += [1] + t_code(res["dep_code"]) + [len(res["dep_diags"])] + [0 if m.startswith("unobservable property") else 1 for m in res["dep_diags"]]
     return out
+
+
+# ---------------------------------------------------------------- JSON dump -> Coq `code` term (for running verified
+# checkers directly on the implementation's IR)
+def q_named(n):
+    if "class" in n:
+        return "(NClass %d)" % class_ix(n["class"])
+    if "enum" in n:
+        return "(NEnum %d)" % e0.ENUM_IX[(n["enum"][0], n["enum"][1])]
+    return "(NPrim %s)" % e0.PRIM_COQ[n["prim"]]
+
+
+def q_type(t):
+    if t["k"] == "list":
+        return "(TList %s)" % q_type(t["inner"])
+    return "(%s %s)" % ("TJust" if t["k"] == "just" else "TPointer", q_named(t["n"]))
+
+
+def q_text(cps):
+    return "([%s])%%N" % "; ".join(str(x) for x in cps)
+
+
+def q_str(s):
+    return '"%s"%%string' % s.replace('"', '""')
+
+
+def q_operand(a):
+    if a == "void":
+        return "OVoid"
+    if "const" in a:
+        c = a["const"]
+        if c == "null":
+            return "(OConst CNull)"
+        if c == "emptylist":
+            return "(OConst CEmptyList)"
+        if "bool" in c:
+            return "(OConst (CBool %s))" % ("true" if c["bool"] else "false")
+        if "int" in c:
+            return "(OConst (CInt (%d)%%Z))" % c["int"]
+        if "float" in c:
+            return "(OConst (CFloat %d%%N))" % c["float"]
+        if "cstr" in c:
+            return "(OConst (CCString %s))" % q_text(c["cstr"])
+        return "(OConst (CQString %s))" % q_text(c["qstr"])
+    if "enum" in a:
+        en = a["enum"][0]["enum"]
+        return "(OEnum %d %s)" % (e0.ENUM_IX[(en[0], en[1])], q_str(a["enum"][1]))
+    if "local" in a:
+        return "(OLocal %d %s)" % (a["local"][0], q_type(a["local"][1]))
+    return "(ONamed %s %d)" % (q_str(a["named"][0]), class_ix(a["named"][1]))
+
+
+def q_list(xs):
+    return "[" + "; ".join(xs) + "]"
+
+
+def q_mref(m):
+    return ("{| mr_class := %d; mr_info := {| mi_name := %s; mi_kind := %s; mi_args := %s; mi_ret := %s |} |}"
+            % (class_ix(m["class"]), q_str(m["name"]), ["MSignal", "MSlot", "MMethod"][m["kind"]], q_list([q_type(t) for t in m["args"]]), q_type(m["ret"])))
+
+
+def q_pref(cls, name):
+    # the checkers only look at the identity of a property
+    return ("{| pr_class := %d; pr_info := {| pi_name := %s; pi_type := T_VOID; pi_readable := true; pi_writable := true; pi_notify := None; pi_constant := false |} |}"
+            % (class_ix(cls), q_str(name)))
+
+
+UN = ["UoArithMinus", "UoArithPlus", "UoBitNot", "UoLogNot"]
+BIN = ["BoAdd", "BoSub", "BoMul", "BoDiv", "BoRem", "BoAnd", "BoXor", "BoOr", "BoShr", "BoShl", "BoLAnd", "BoLOr", "BoEq", "BoNe", "BoLt", "BoLe", "BoGt", "BoGe"]
+
+
+def q_builtin(f):
+    if f[0] == 0:
+        return "(BfConsole %s)" % ["LLog", "LDebug", "LInfo", "LWarn", "LError"][f[1]]
+    return ["", "BfMax", "BfMin", "BfTr"][f[0]]
+
+
+def q_rvalue(r):
+    (k, v), = r.items()
+    if k == "copy":
+        return "(RCopy %s)" % q_operand(v)
+    if k == "unary":
+        return "(RUnary %s %s)" % (UN[v[0]], q_operand(v[1]))
+    if k == "binary":
+        return "(RBinary %s %s %s)" % (BIN[v[0]], q_operand(v[1]), q_operand(v[2]))
+    if k == "static_cast":
+        return "(RStaticCast %s %s)" % (q_type(v[0]), q_operand(v[1]))
+    if k == "variant_cast":
+        return "(RVariantCast %s %s)" % (q_type(v[0]), q_operand(v[1]))
+    if k == "builtin":
+        return "(RBuiltin %s %s)" % (q_builtin(v[0]), q_list([q_operand(a) for a in v[1]]))
+    if k == "call":
+        return "(RCallMethod %s %s %s)" % (q_operand(v[0]), q_mref(v[1]), q_list([q_operand(a) for a in v[2]]))
+    if k == "read_prop":
+        return "(RReadProp %s %s)" % (q_operand(v[0]), q_pref(v[1], v[2]))
+    if k == "write_prop":
+        return "(RWriteProp %s %s %s)" % (q_operand(v[0]), q_pref(v[1], v[2]), q_operand(v[3]))
+    if k == "read_sub":
+        return "(RReadSub %s %s)" % (q_operand(v[0]), q_operand(v[1]))
+    if k == "write_sub":
+        return "(RWriteSub %s %s %s)" % (q_operand(v[0]), q_operand(v[1]), q_operand(v[2]))
+    return "(RMakeList %s %s)" % (q_type(v[0]), q_list([q_operand(a) for a in v[1]]))
+
+
+def q_stmt(s):
+    (k, v), = s.items()
+    if k == "assign":
+        return "(TAssign %d %s)" % (v[0], q_rvalue(v[1]))
+    if k == "exec":
+        return "(TExec %s)" % q_rvalue(v)
+    return "(TObserve %d %d %s)" % (v[0], v[1], q_mref(v[2]))
+
+
+def q_term(t):
+    if t == "unreachable":
+        return "(Some TmUnreachable)"
+    (k, v), = t.items()
+    if k == "br":
+        return "(Some (TmBr %d))" % v
+    if k == "br_cond":
+        return "(Some (TmBrCond %s %d %d))" % (q_operand(v[0]), v[1], v[2])
+    return "(Some (TmReturn %s))" % q_operand(v)
+
+
+def q_code(c):
+    blocks = q_list(["{| b_stmts := %s; b_compl := None; b_term := %s |}" % (q_list([q_stmt(s) for s in b["stmts"]]), q_term(b["term"])) for b in c["blocks"]])
+    return ("{| c_blocks := %s; c_locals := %s; c_nparams := %d; c_sdeps := %s; c_nobs := %d |}"
+            % (blocks, q_list([q_type(t) for t in c["locals"]]), c["nparams"],
+               q_list(["(%s, %s)" % (q_str(o), q_mref(m)) for o, m in c["sdeps"]]), c["nobs"]))
